@@ -206,9 +206,9 @@ def c10_long(rng, tier):
     return out
 
 SPECS = {
-    "C01": Spec("C01", C01_CTORS + ["ToSpan", "MapWith"], obs_vv, ekinds=("rich", "empty", "simple"), ikinds=("str", "slice"),
+    "C01": Spec("C01", C01_CTORS + ["ToSpan", "MapWith", "ExtWrap"], obs_vv, ekinds=("rich", "empty", "simple"), ikinds=("str", "slice", "io", "stream"),
                 nontrivial=nt_backtrack,
-                rule="random grammars (depth 1-4) over the C01 constructor set with span captures; inputs sampled from the "
+                rule="random grammars (depth 1-4) over the C01 constructor set with span captures and extension parsers, on &str / &[T] / IoInput / Stream; inputs sampled from the "
                      "grammar's language, mutated (insert/delete/substitute), truncated, extended, plus random strings; "
                      "distinct = distinct (grammar, input); non-trivial = non-empty input and the grammar contains a "
                      "choice / option / lookahead / filter / try_map node"),
@@ -217,17 +217,18 @@ SPECS = {
                 rule="random grammars whose inner nodes are mostly repeated/separated_by with every finisher "
                      "(collect Vec/usize/(), collect_exactly, foldl, foldr, *_with, unit) and adaptors (enumerate, map, "
                      "map_with), bounds 0..5, both flags; non-trivial = non-empty input and an iteration node present"),
-    "C03": Spec("C03", CORE + ITER + RECOVER + EMIT, obs_errs, sem_obs=lambda r: (r.kind,), ekinds=("rich", "empty"), extra=contract_oracle,
+    "C03": Spec("C03", CORE + ITER + RECOVER + EMIT + ["ExtWrap"], obs_errs, sem_obs=lambda r: (r.kind,), ekinds=("rich", "empty"), extra=contract_oracle,
                 nontrivial=lambda g, inp: len(inp) > 0,
                 rule="C01/C02/C08 grammars; each sampled accepted input is also run extended by one token; "
                      "non-trivial = non-empty input"),
-    "C04": Spec("C04", CORE + SPANS + ITER + ["RepUnit"] * 3 + EMIT + RECOVER + DECOR + CTX, obs_errs, sem_obs=lambda r: (r.kind,), emit_bias=0.2,
+    "C04": Spec("C04", CORE + SPANS + ITER + ["RepUnit"] * 3 + EMIT + RECOVER + DECOR + CTX + ["ExtWrap"] * 3, obs_errs, sem_obs=lambda r: (r.kind,), emit_bias=0.2,
                 ekinds=("rich", "simple", "empty"), ikinds=("str", "slice"),
                 nontrivial=lambda g, inp: len(inp) > 0 and has_head(g, {"IgnoreThen", "ThenIgnore", "Ignored", "To", "ToSlice",
-                    "ToSpan", "DelimitedBy", "PaddedBy", "RepUnit", "Filter", "TryMap", "Validate", "Collect"}),
+                    "ToSpan", "DelimitedBy", "PaddedBy", "RepUnit", "Filter", "TryMap", "Validate", "Collect", "ExtWrap"}),
                 rule="grammars over every modelled constructor; each (grammar, input) is run through parse() and check(); "
+                     "extension parsers (Ext over an ExtParser with a separate check path through InputRef::parse / InputRef::check) at random nodes; "
                      "non-trivial = non-empty input and an eliding / mode-forcing combinator present"),
-    "C05": Spec("C05", CORE + ITER + ["RepUnit"] * 3 + EMIT * 6 + RECOVER * 2, obs_emis, ekinds=("rich",), emit_bias=0.3, n_quick=800,
+    "C05": Spec("C05", CORE + ITER + ["RepUnit"] * 3 + EMIT * 6 + RECOVER * 2 + ["ExtWrap"], obs_emis, ekinds=("rich",), emit_bias=0.3, n_quick=800,
                 nontrivial=lambda g, inp: len(inp) > 0 and has_head(g, {"Validate", "RecoverVia", "RecoverSkipUntil", "RecoverSkipRetry"})
                                           and has_head(g, BACKTRACK),
                 rule="C01/C02 grammars with validate emitters and recover_with at random positions; "
@@ -286,7 +287,7 @@ SPECS = {
                 nontrivial=lambda g, inp: len(inp) > 0 and has_head(g, {"MapWith", "FoldlWith", "FoldrWith", "IMapWith"}),
                 rule="C01/C02/C08 grammars with state-observing map_with / foldl_with / foldr_with at random nodes (the inspector "
                      "hashes every token and snapshots on save); non-trivial = an observation present, non-empty input"),
-    "C20": Spec("C20", CORE + SPANS + ITER + EMIT + RECOVER + DECOR + CTX, lambda r: (r.kind,), ekinds=("rich", "empty", "cheap", "simple"),
+    "C20": Spec("C20", CORE + SPANS + ITER + EMIT + RECOVER + DECOR + CTX + ["ExtWrap"], lambda r: (r.kind,), ekinds=("rich", "empty", "cheap", "simple"),
                 ikinds=("str", "slice"), nontrivial=lambda g, inp: True,
                 rule="grammars over every modelled constructor (repetition items and skip parsers syntactically consuming), "
                      "all error types; observable = the verdict class (OK / FAIL / PANIC / TIMEOUT); plus implementation-only runs with the verdict known by "
